@@ -152,8 +152,8 @@ def run_case(case: dict) -> Tuple[Any, List[dict], Any]:
 
     from django_components import get_component_files
 
-    top = os.path.realpath(tempfile.mkdtemp(prefix="djc_c20_"))
-    base = os.path.join(top, *case["ancestor"].split("/"), "proj") if case.get("ancestor") else top
+    tmp_root = os.path.realpath(tempfile.mkdtemp(prefix="djc_c20_"))
+    base = os.path.join(tmp_root, *case["ancestor"].split("/"), "proj") if case.get("ancestor") else tmp_root
     os.makedirs(base, exist_ok=True)
     appbase = os.path.join(base, "_site")
     os.makedirs(appbase)
@@ -248,7 +248,7 @@ def run_case(case: dict) -> Tuple[Any, List[dict], Any]:
         return impl, reqs, imports
     finally:
         sys.path.remove(appbase)
-        shutil.rmtree(top, ignore_errors=True)
+        shutil.rmtree(tmp_root, ignore_errors=True)
         importlib.invalidate_caches()
 
 
